@@ -28,8 +28,9 @@ def check(src, rep):
     ce = ConstEval(M)
     file = src.file(MOD)
     rep.count("modules", len(src.text))
-    fn = M.funcs.get("dlde._decode_parsed")
-    rep.require(fn is not None, "anchor vanished: dlde._decode_parsed")
+    from sa.decoders import p1_decode_worker
+    fn = p1_decode_worker(M)
+    rep.require(fn is not None, "cannot find the per-data-set decoder reached from decode_p1_readout_content")
     rep.assumptions += ["IEEE double lemma: for a decimal with <= 3 fractional digits, int(float(t) * 1000) is the exact product or one below, never above (paper argument, DESIGN.md A.5)",
                         "parse_data_block's input/output relation over all well-formed blocks is NOT decided (honest not-applicable for that clause); its termination is C15/R2"]
     rep.explanation = ("PARTIAL. Decided: every path of the per-data-set step dispatches on the case-folded unit only - {V, A, var, varh} -> float(value), {kW, kWh, kvar, kvarh} -> "
@@ -75,35 +76,35 @@ def check(src, rep):
         if lits.get("single") is False:
             if stores:
                 bad += 1
-                rep.violation("R3", "dlde._decode_parsed", "multi-valued-decoded", "a data set with several values is decoded", file, node.lineno)
+                rep.violation("R3", f"dlde.{fn.name}", "multi-valued-decoded", "a data set with several values is decoded", file, node.lineno)
             continue
         if len(stores) != 1:
             bad += 1
-            rep.violation("R3", "dlde._decode_parsed", "stores-per-dataset", f"a single-valued data set produces {len(stores)} dictionary entries", file, node.lineno)
+            rep.violation("R3", f"dlde.{fn.name}", "stores-per-dataset", f"a single-valued data set produces {len(stores)} dictionary entries", file, node.lineno)
             continue
         n_paths += 1
         key, value = _strip_lines(strip_epoch(stores[0][2])), _strip_lines(strip_epoch(stores[0][3]))
         odd_units = [k for k in lits if isinstance(k, tuple)]
         if odd_units:
             bad += 1
-            rep.violation("R1", "dlde._decode_parsed", "unit-set", f"the unit dispatch tests the set {set(odd_units[0][1])}: it is neither {{V, A, var, varh}} nor {{kW, kWh, kvar, kvarh}}", file, stores[0][-1])
+            rep.violation("R1", f"dlde.{fn.name}", "unit-set", f"the unit dispatch tests the set {set(odd_units[0][1])}: it is neither {{V, A, var, varh}} nor {{kW, kWh, kvar, kvarh}}", file, stores[0][-1])
             continue
         if unknown:
             bad += 1
-            rep.violation("R1", "dlde._decode_parsed", "extra-condition", "the conversion of a data set depends on a condition other than its (case-folded) unit and the 1.0.0 address: "
+            rep.violation("R1", f"dlde.{fn.name}", "extra-condition", "the conversion of a data set depends on a condition other than its (case-folded) unit and the 1.0.0 address: "
                           "some transmitted forms of a number (e.g. without fractional digits) are not converted", file, stores[0][-1], witness="; ".join(("" if pol else "not ") + show_sv(g)[:80] for g, pol in unknown))
             continue
         # naming
         cdr_ok = (key[0] == "sub" and key[1][0] == "f0" and key[1][2] == "obis_name_map" and lits.get("known") is True) or (key[0] == "call" and "to_group_cdr_str" in str(key[1]) and lits.get("known") is False)
         if not cdr_ok:
             bad += 1
-            rep.violation("R3", "dlde._decode_parsed", "naming", "the key is not obis_name_map[C.D.E] (when known) or C.D.E of the data set's address", file, stores[0][-1], witness=show_sv(key)[:80])
+            rep.violation("R3", f"dlde.{fn.name}", "naming", "the key is not obis_name_map[C.D.E] (when known) or C.D.E of the data set's address", file, stores[0][-1], witness=show_sv(key)[:80])
         # value by unit class
         if lits.get("float"):
             seen_kinds.add("float")
             if value != ("call", "float", (VAL,)):
                 bad += 1
-                rep.violation("R1", "dlde._decode_parsed", "float-units", "V/A/var/varh quantities are not stored as float(transmitted number)", file, stores[0][-1], witness=show_sv(value)[:100])
+                rep.violation("R1", f"dlde.{fn.name}", "float-units", "V/A/var/varh quantities are not stored as float(transmitted number)", file, stores[0][-1], witness=show_sv(value)[:100])
         elif lits.get("kilo"):
             seen_kinds.add("kilo")
             okv = value in (("call", "int", (("op", "Mult", ("call", "float", (VAL,)), ("c", 1000)),)), ("call", "int", (("op", "Mult", ("c", 1000), ("call", "float", (VAL,))),)),
@@ -112,7 +113,7 @@ def check(src, rep):
                 okv = True
             if not okv:
                 bad += 1
-                rep.violation("R1", "dlde._decode_parsed", "kilo-units", "kW/kWh/kvar/kvarh quantities are not converted by an idiom of the catalogue (int(float(v) * 1000), round(float(v) * 1000), int(Decimal(v) * 1000))",
+                rep.violation("R1", f"dlde.{fn.name}", "kilo-units", "kW/kWh/kvar/kvarh quantities are not converted by an idiom of the catalogue (int(float(v) * 1000), round(float(v) * 1000), int(Decimal(v) * 1000))",
                               file, stores[0][-1], witness=show_sv(value)[:120])
         elif lits.get("clock"):
             seen_kinds.add("clock")
@@ -124,7 +125,7 @@ def check(src, rep):
             seen_kinds.add("verbatim")
             if value != VAL:
                 bad += 1
-                rep.violation("R1", "dlde._decode_parsed", "verbatim", "other values are not stored verbatim", file, stores[0][-1], witness=show_sv(value)[:80])
+                rep.violation("R1", f"dlde.{fn.name}", "verbatim", "other values are not stored verbatim", file, stores[0][-1], witness=show_sv(value)[:80])
         else:
             rep.undecide(f"R1 a data-set path is not classified by the unit sets / clock address: {sorted(str(k) for k in lits)}")
     if not bad and seen_kinds >= {"float", "kilo", "clock", "verbatim"}:
@@ -136,7 +137,7 @@ def check(src, rep):
     # case folding of the unit
     txt = ast.unparse(fn.node)
     if ".lower()" not in txt and ".casefold()" not in txt and ".upper()" not in txt:
-        rep.violation("R1", "dlde._decode_parsed", "unit-case", "units are compared case-sensitively", file, fn.node.lineno)
+        rep.violation("R1", f"dlde.{fn.name}", "unit-case", "units are compared case-sensitively", file, fn.node.lineno)
     cg = cdr_groups_finding(M)
     if cg:
         rep.violation("R3", "obis.Obis.to_group_cdr_str", "cde-groups", cg, src.file("obis"), 1)
@@ -156,7 +157,10 @@ def check(src, rep):
             rep.violation("R4", f"dlde.Ident.{prop}", "ident-group", f"{prop} reads regex group {groups} instead of '{grp}'", file, f.node.lineno)
     try:
         pat = None
-        init = M.mod_consts.get(MOD, {}).get("_ident_pattern")
+        init = None
+        for n in ast.walk(I.methods["__init__"].node):
+            if isinstance(n, ast.Call) and isinstance(n.func, ast.Attribute) and n.func.attr in ("match", "fullmatch", "search") and isinstance(n.func.value, ast.Name):
+                init = M.mod_consts.get(MOD, {}).get(n.func.value.id)
         if isinstance(init, ast.Call) and init.args:
             pat = ce.eval(init.args[0], {}, MOD)
         rx = re.compile(pat)
@@ -189,7 +193,7 @@ def check(src, rep):
         rep.violation("R5", "dlde.parse_p1_readout", "payload", "the whole-readout parser does not hand the readout's payload to the content parser", file, pr.node.lineno)
     calls_dc = [ast.unparse(n.func) for n in ast.walk(dc.node) if isinstance(n, ast.Call)]
     calls_dr = [ast.unparse(n.func) for n in ast.walk(dr.node) if isinstance(n, ast.Call)]
-    if not ("parse_p1_readout_content" in calls_dc and "_decode_parsed" in calls_dc and "parse_p1_readout" in calls_dr and "_decode_parsed" in calls_dr):
+    if not ("parse_p1_readout_content" in calls_dc and fn.name in calls_dc and "parse_p1_readout" in calls_dr and fn.name in calls_dr):
         ok5 = False
         rep.violation("R5", "dlde", "shared-decoder", "the P1 entry points do not share the parse function and _decode_parsed", file, dc.node.lineno, witness=f"{calls_dc} / {calls_dr}")
     try:
